@@ -261,10 +261,11 @@ def check_t2l(spec, ctx):
 # import
 
 
-def _recording(sr, te):
+def _recording(sr, te, channels=1):
     from soundevent import data
 
-    return data.Recording(uuid=str(uuidlib.UUID(int=5)), path="r.wav", duration=100.0, channels=1, samplerate=sr, time_expansion=te)
+    # sample indices count frames: how many channels a frame has is none of the conversion's business
+    return data.Recording(uuid=str(uuidlib.UUID(int=5)), path="r.wav", duration=100.0, channels=channels, samplerate=sr, time_expansion=te)
 
 
 @st.composite
@@ -289,7 +290,7 @@ def check_import(spec, ctx):
     from soundevent.io import crowsetta as sec
 
     sr, te = spec["sr"], spec["te"]
-    rec = _recording(sr, te)
+    rec = _recording(sr, te, channels=[1, 2, 4][len(spec["elems"]) % 3])
     kind = spec["kind"]
     elems = spec["elems"]
     file_sr = Fr(sr) / Fr(te)
@@ -461,7 +462,7 @@ def check_export(spec, ctx):
     from soundevent.io import crowsetta as sec
 
     sr = spec["sr"]
-    rec = _recording(sr, spec.get("te", 1.0))
+    rec = _recording(sr, spec.get("te", 1.0), channels=[1, 2, 4, 1][len(spec["items"]) % 4] if spec["items"] else 2)
     anns = []
     for i, it in enumerate(spec["items"]):
         g = data.geometry_validate(it["geometry"], mode="dict") if it["geometry"] else None
@@ -629,7 +630,7 @@ def check_roundtrip(spec, ctx):
     import crowsetta
     from soundevent.io import crowsetta as sec
 
-    rec = _recording(spec["sr"], 1.0)
+    rec = _recording(spec["sr"], 1.0, channels=[1, 2, 3][len(spec.get("elems", [])) % 3])
     elems = spec["elems"]
     if any(not e["onset"] < e["offset"] or not e["low"] < e["high"] for e in elems) or spec["kind"] not in ("sequence", "annotation_bbox"):
         raise ValueError("malformed spec")
